@@ -327,24 +327,24 @@ impl<E: Effect, R: CommandReceiver<E>, S: EventSender<E>> Worker<E, R, S> {
                 captures,
                 argument,
             } => {
-                // Extract heap data from all captures and argument
-                let mut all_heap_data = Vec::new();
-                let mut extracted_captures = Vec::new();
-
-                for capture in captures {
-                    let (extracted, mut heap) = self
-                        .executor
-                        .extract_heap_data(&capture)
-                        .map_err(|e| EnvironmentError::HeapData(format!("{:?}", e)))?;
-                    extracted_captures.push(extracted);
-                    all_heap_data.append(&mut heap);
-                }
-
-                let (extracted_argument, mut arg_heap) = self
+                // Extract heap data from all captures and the argument in one pass: every
+                // extracted value must index into the same combined heap vector, because the
+                // receiving executor injects each of them against that whole vector.
+                let mut bundle = captures;
+                bundle.push(argument);
+                let (extracted, all_heap_data) = self
                     .executor
-                    .extract_heap_data(&argument)
+                    .extract_heap_data(&Value::tuple(0, bundle))
                     .map_err(|e| EnvironmentError::HeapData(format!("{:?}", e)))?;
-                all_heap_data.append(&mut arg_heap);
+                let Value::Tuple(_, fields) = extracted else {
+                    return Err(EnvironmentError::HeapData(
+                        "spawn bundle did not extract to a tuple".to_string(),
+                    ));
+                };
+                let mut extracted_captures: Vec<Value> = fields.iter().cloned().collect();
+                let extracted_argument = extracted_captures.pop().ok_or_else(|| {
+                    EnvironmentError::HeapData("spawn bundle lost its argument".to_string())
+                })?;
 
                 self.sender.send(Event::SpawnAction {
                     caller,
